@@ -176,6 +176,8 @@ def dispatch (op : String) (args : List String) : Option String :=
   match op, args with
   | "prot.enc", [sc, subs, f] => do
       pure (showOFrag (encryptFrag (← scheme? sc) (← plusNats subs) (← frag? f)))
+  | "prot.enciv", [iv, sc, subs, f] => do
+      pure (showOFrag (encryptFragIV (← iv.toNat?) (← scheme? sc) (← plusNats subs) (← frag? f)))
   | "prot.all", [ps, f] => do
       pure (showOFrag (encryptAll (paramFn (← params? ps)) (← frag? f)))
   | "prot.lay", [f] => do pure (showOFrag (layout (← frag? f)))
